@@ -292,3 +292,97 @@ package mocrelay
 //@   requires nip11 != nil && nip11.Limitation != nil
 //@   pure
 //@   ensures result == nip11Chain(nip11, h)
+
+// ---------------------------------------------------------------------------------------------
+// C02: filter matching
+
+//@ func NewReqFilterMatcher
+//@   serves C02
+//@   requires filter != nil
+//@   writes nothing
+//@   ensures fresh(result) && result.cnt == 0 && repr(result, filter)
+//@   loop 1 as i
+//@     lwrites ret.f.IDs
+//@     invariant all(k, string, ret.f.IDs[k] == exists(j, 0, i, filter.IDs[j] == k))
+//@   loop 2 as i
+//@     lwrites ret.f.Authors
+//@     invariant all(k, string, ret.f.Authors[k] == exists(j, 0, i, filter.Authors[j] == k))
+//@   loop 3 as i
+//@     lwrites ret.f.Kinds
+//@     invariant all(k, int64, ret.f.Kinds[k] == exists(j, 0, i, filter.Kinds[j] == k))
+//@   loop 4 visited vs
+//@     lwrites ret.f.Tags
+//@     invariant all(k, string, has(ret.f.Tags, k) == vs[k])
+//@     invariant all(k, string, vs[k] ==> has(filter.Tags, k))
+//@     invariant all(k, string, vs[k] ==> (ret.f.Tags[k] != nil && fresh(ret.f.Tags[k]) && all(v, string, ret.f.Tags[k][v] == hasStr(filter.Tags[k], v))))
+//@   loop 5 as i
+//@     lwrites m
+//@     invariant all(v, string, m[v] == exists(j, 0, i, vals[j] == v))
+
+//@ func ReqFilterEventLimitMatcher.Match
+//@   serves C02
+//@   requires m != nil && wfEvent(event)
+//@   pure
+//@   ensures result == mMatch(m, event)
+//@   loop 1 as i
+//@     lwrites found
+//@     invariant all(k, string, has(found, k) ==> has(m.f.Tags, k))
+//@     invariant all(k, string, has(found, k) == exists(j, 0, i, event.Tags[j][0] == k && mTagOK(m, event.Tags[j])))
+//@   assume @afterloop1: subsetcard(found, m.f.Tags)
+
+//@ func ReqFilterEventLimitMatcher.LimitMatch
+//@   serves C02
+//@   requires m != nil && wfEvent(event) && m.cnt < 9223372036854775807
+//@   writes m.cnt
+//@   ensures result == old(mMatch(m, event))
+//@   ensures m.cnt == old(m.cnt) + ite(result, 1, 0)
+
+//@ func ReqFilterEventLimitMatcher.Done
+//@   serves C02
+//@   requires m != nil
+//@   pure
+//@   ensures result == mDone(m)
+
+//@ func EventLimitMatchers.Match
+//@   serves C02
+//@   opt inst.T=*ReqFilterEventLimitMatcher
+//@   requires wfEvent(event) && forall(i, 0, len(m), m[i] != nil)
+//@   pure
+//@   ensures result == exists(i, 0, len(m), mMatch(m[i], event))
+//@   loop 1 as i
+//@     invariant match == exists(j, 0, i, mMatch(m[j], event))
+
+//@ func EventLimitMatchers.LimitMatch
+//@   serves C02
+//@   opt inst.T=*ReqFilterEventLimitMatcher
+//@   requires wfEvent(event) && forall(i, 0, len(m), m[i] != nil && m[i].cnt < 9223372036854775807)
+//@   requires forall(i, 0, len(m), forall(j, 0, i, m[i] != m[j]))
+//@   writes each(i, 0, len(m), m[i].cnt)
+//@   ensures result == old(exists(i, 0, len(m), mMatch(m[i], event)))
+//@   ensures forall(i, 0, len(m), m[i].cnt == old(m[i].cnt) + ite(old(mMatch(m[i], event)), 1, 0))
+//@   loop 1 as i
+//@     lwrites each(j, 0, len(m), m[j].cnt)
+//@     invariant match == exists(j, 0, i, old(mMatch(m[j], event)))
+//@     invariant forall(j, 0, i, m[j].cnt == old(m[j].cnt) + ite(old(mMatch(m[j], event)), 1, 0))
+//@     invariant forall(j, i, len(m), m[j].cnt == old(m[j].cnt))
+
+//@ func EventLimitMatchers.Done
+//@   serves C02
+//@   opt inst.T=*ReqFilterEventLimitMatcher
+//@   requires forall(i, 0, len(m), m[i] != nil)
+//@   pure
+//@   ensures result == forall(i, 0, len(m), mDone(m[i]))
+//@   loop 1 as i
+//@     invariant done == forall(j, 0, i, mDone(m[j]))
+
+//@ func NewReqFiltersEventLimitMatcher
+//@   serves C02
+//@   requires filters != nil && forall(i, 0, len(filters), filters[i] != nil)
+//@   writes nothing
+//@   ensures len(result) == len(filters)
+//@   ensures forall(i, 0, len(result), result[i] != nil && fresh(result[i]) && result[i].cnt == 0 && repr(result[i], filters[i]))
+//@   ensures forall(i, 0, len(result), forall(j, 0, i, result[i] != result[j]))
+//@   loop 1 as i
+//@     invariant len(ret) == len(filters)
+//@     invariant forall(j, 0, i, ret[j] != nil && fresh(ret[j]) && ret[j].cnt == 0 && repr(ret[j], filters[j]))
+//@     invariant forall(j, 0, i, forall(l, 0, j, ret[j] != ret[l]))
